@@ -322,6 +322,14 @@ def gen_c09(tier, rng):
             for suffix, ok in (("", True), (" ", True), ("\n", True), ("x", False), (" junk", False), (".5", False), ("0x", False), (" 1", False)):
                 inp = pre + str(v) + post + suffix
                 cases.append("parse %s %s %s %s" % (rng.choice(ids), hx(fm), hx(inp), ("EXP %d 0" % v) if ok else "REJ"))
+    # weekday and week-number fields at and just outside their documented ranges (%u 1-7, %w 0-6, %U %W 0-53)
+    for fm, lo, hi in (("%u", 1, 7), ("%w", 0, 6), ("%U", 0, 53), ("%W", 0, 53)):
+        for v in (lo - 1, lo, hi, hi + 1):
+            if v < 0:
+                continue
+            cases.append("parse %s %s %s %s" % (fixed_ids()[0], hx(fm), hx(str(v)), "" if lo <= v <= hi else "REJ"))
+            cases.append("parse %s %s %s %s" % (fixed_ids()[0], hx("%Y-%W-" + fm if fm in ("%u", "%w") else "%Y-" + fm + "-%u"),
+                                                hx("2018-01-%d" % v if fm in ("%u", "%w") else "2018-%02d-1" % v), "" if lo <= v <= hi else "REJ"))
     # %e: exactly what format() renders (a blank and one digit, or two digits) and its near misses
     for inp, exp in (("2024-03- 9", "CIV 2024 3 9 0 0 0 0"), ("2024-03-19", "CIV 2024 3 19 0 0 0 0"), ("2024-03-9", "CIV 2024 3 9 0 0 0 0"),
                      ("2024-03- 0", "REJ"), ("2024-03-  9", "REJ"), ("2024-03- 19", "REJ"), ("2024-03- x", "REJ"), ("2024-03- ", "REJ")):
